@@ -2,13 +2,8 @@
    transform_to_spatial_orbitals, allowed_spin_blocks, _has_valid_combination),
    Obj.allowed_spin_blocks and Obj.expand_antisym_eri.
 
-   Every function that mirrors code with a defect found while modelling takes a
-   flag [fx : bool]:  [fx = false] follows the code that exists (statement by
-   statement, including the three defects), [fx = true] is the code with the
-   minimal patches of findings/C15_*.md applied.  The correspondence check
-   compares the implementation with [fx = false]; the property theorems are
-   proved for [fx = true] and for [fx = false] under explicit side conditions,
-   with [_refuted] witnesses outside them. *)
+   The model follows the code after the four repairs of findings/C15_*.md
+   (commits 0c1e7ae, 8f48ab3, 18a2580, 80a5ce3 of /repo). *)
 From Coq Require Import ZArith NArith QArith List Bool Lia String Ascii.
 From ADC Require Import Core.Scalar Core.Index Core.Expr.
 Import ListNotations.
@@ -37,7 +32,7 @@ Proof. revert b; induction a as [|x a IH]; destruct b as [|y b]; simpl; try (spl
 Definition bmem (b : block) (l : list block) := existsb (block_eqb b) l.
 
 (* Python exceptions are results [Err code]:
-   1 ValueError "Found invalid allowed spin block"      2 IndexError (_has_valid_combination on an empty list)
+   1 (internal: block skipped)                            2 IndexError (_has_valid_combination on an empty list)
    3 RuntimeError "Not all indices were assigned"        4 ValueError odd t-amplitude
    5 NotImplementedError expand_antisym_eri (bra_ket_sym != 1)   6 ValueError unpacking p,q,r,s
    7 RuntimeError mp density with different number of upper/lower indices
@@ -166,32 +161,32 @@ Fixpoint zip_map (tm : tmap) (zp : list (sp * index)) (acc : smap) : option smap
     end
   end.
 
-(* the loop "for block in allowed_blocks"; patch 3: skip (instead of raise on) a block
-   that gives two spins to one index *)
-Fixpoint obj_maps (fx : bool) (tm : tmap) (tb : list block) (ix : list index) : res (list smap) :=
+(* the loop "for block in allowed_blocks"; a block that gives two spins to one index
+   (object carrying an index twice) is skipped *)
+Fixpoint obj_maps (tm : tmap) (tb : list block) (ix : list index) : res (list smap) :=
   match tb with
   | [] => Ok []
   | bl :: tb' =>
     match zip_map tm (combine bl ix) sempty with
-    | None => obj_maps fx tm tb' ix
+    | None => obj_maps tm tb' ix
     | Some m =>
-      if iinter (sa m) (sb m) then (if fx then obj_maps fx tm tb' ix else Err 1)
-      else rbind (obj_maps fx tm tb' ix) (fun l => Ok (m :: l))
+      if iinter (sa m) (sb m) then obj_maps tm tb' ix
+      else rbind (obj_maps tm tb' ix) (fun l => Ok (m :: l))
     end
   end.
 
 Definition sobj := (list index * option (list block))%type.
 
 (* the loop "for obj in term.objects": None = term_vanishes *)
-Fixpoint term_maps (fx : bool) (tm : tmap) (objs : list sobj) : res (option (list (list smap))) :=
+Fixpoint term_maps (tm : tmap) (objs : list sobj) : res (option (list (list smap))) :=
   match objs with
   | [] => Ok (Some [])
-  | (_, None) :: r => term_maps fx tm r
+  | (_, None) :: r => term_maps tm r
   | (ix, Some tb) :: r =>
-    rbind (obj_maps fx tm tb ix) (fun l =>
+    rbind (obj_maps tm tb ix) (fun l =>
       match l with
       | [] => Ok None
-      | _ => rbind (term_maps fx tm r) (fun o =>
+      | _ => rbind (term_maps tm r) (fun o =>
                match o with None => Ok None | Some ls => Ok (Some (l :: ls)) end)
       end)
   end.
@@ -212,11 +207,10 @@ Fixpoint combine_all (combos : list smap) (rest : list (list smap)) : option (li
   | nw :: rest' =>
     match combine_step combos nw with [] => None | c => combine_all c rest' end
   end.
-(* patch 1: a term without any object that has a block table starts from the
-   empty assignment instead of from no assignment at all *)
-Definition combine_maps (fx : bool) (ls : list (list smap)) : option (list smap) :=
+(* a term without any object that has a block table starts from the empty assignment *)
+Definition combine_maps (ls : list (list smap)) : option (list smap) :=
   match ls with
-  | [] => Some (if fx then [sempty] else [])
+  | [] => Some [sempty]
   | f :: r => combine_all f r
   end.
 
@@ -228,31 +222,28 @@ Definition miss_contr (tm : tmap) (miss : list index) : list index :=
   filter (fun x => match tlookup tm x with None => true | Some _ => false end) miss.
 Fixpoint add_zip (zp : list (sp * index)) (m : smap) : smap :=
   match zp with [] => m | (s, x) :: r => add_zip r (sadd s x m) end.
-(* patch 2: "complete_variant = idx_map.copy()" is a shallow copy - all variants share
-   the two sets, so after the loop every variant holds every missing contracted
-   index in both sets; the code then builds the substitution for "a" first and
-   overwrites it with "b" *)
-Definition complete (fx : bool) (tm : tmap) (tidx : list index) (m : smap) : list smap :=
+(* every variant is a copy of the map with the unassigned contracted indices
+   distributed over the two spins (product("ab", repeat=n)) *)
+Definition complete (tm : tmap) (tidx : list index) (m : smap) : list smap :=
   let miss := missing tidx m in
   let m' := add_targets tm miss m in
   let mc := miss_contr tm miss in
   match mc with
   | [] => [m']
-  | _ => if fx then map (fun var => add_zip (combine var mc) m') (all_blocks (List.length mc))
-         else map (fun _ => SMap (iunion (sa m') mc) (iunion (sb m') mc)) (all_blocks (List.length mc))
+  | _ => map (fun var => add_zip (combine var mc) m') (all_blocks (List.length mc))
   end.
 
 (* the list of variants that are substituted into the term (with multiplicity, in order) *)
-Definition integrate_objs (fx : bool) (tm : tmap) (objs : list sobj) (tidx : list index) : res (list smap) :=
+Definition integrate_objs (tm : tmap) (objs : list sobj) (tidx : list index) : res (list smap) :=
   match tidx with
   | [] => Ok [sempty]                      (* "if not term_indices: result += term" *)
   | _ =>
-    rbind (term_maps fx tm objs) (fun o =>
+    rbind (term_maps tm objs) (fun o =>
       match o with
       | None => Ok []
-      | Some ls => match combine_maps fx ls with
+      | Some ls => match combine_maps ls with
                    | None => Ok []
-                   | Some cs => Ok (flat_map (complete fx tm tidx) cs)
+                   | Some cs => Ok (flat_map (complete tm tidx) cs)
                    end
       end)
   end.
@@ -282,10 +273,10 @@ Definition has_spin (ix : list index) : bool :=
    an exception of a later object is not reached when an earlier one makes the
    term vanish; with the exceptions that exist (codes 4, 7) and the inputs of the
    check this order is immaterial and the tables are computed first *)
-Definition integrate_atoms (fx : bool) (it : itable) (tm : tmap) (atoms : list atom) : res (list smap) :=
+Definition integrate_atoms (it : itable) (tm : tmap) (atoms : list atom) : res (list smap) :=
   let tidx := atoms_idx atoms in
   if has_spin tidx then Err 8
-  else rbind (sobjs_of it atoms) (fun objs => integrate_objs fx tm objs tidx).
+  else rbind (sobjs_of it atoms) (fun objs => integrate_objs tm objs tidx).
 
 (* ---------- renaming of indices in a term ---------- *)
 Definition ren_tens (f : index -> index) (t : tens) : tens :=
@@ -308,12 +299,12 @@ Definition lab (m : smap) (x : index) : index :=
 Definition unspin (x : index) : index := Idx (ispace x) NoSpin (iletter x) (inum x) (iuid x).
 
 Definition term_atoms (t : term) : list atom := map fst (tfacs t).
-Definition integrate_term (fx : bool) (it : itable) (tm : tmap) (t : term) : res (list term) :=
-  rbind (integrate_atoms fx it tm (term_atoms t)) (fun vs => Ok (map (fun m => ren_term (lab m) t) vs)).
-Fixpoint integrate_expr (fx : bool) (it : itable) (tm : tmap) (e : expr) : res expr :=
+Definition integrate_term (it : itable) (tm : tmap) (t : term) : res (list term) :=
+  rbind (integrate_atoms it tm (term_atoms t)) (fun vs => Ok (map (fun m => ren_term (lab m) t) vs)).
+Fixpoint integrate_expr (it : itable) (tm : tmap) (e : expr) : res expr :=
   match e with
   | [] => Ok []
-  | t :: r => rbind (integrate_term fx it tm t) (fun l => rbind (integrate_expr fx it tm r) (fun l' => Ok (l ++ l')))
+  | t :: r => rbind (integrate_term it tm t) (fun l => rbind (integrate_expr it tm r) (fun l' => Ok (l ++ l')))
   end.
 
 (* ------------------------------------------------------------------ *)
@@ -321,7 +312,7 @@ Fixpoint integrate_expr (fx : bool) (it : itable) (tm : tmap) (e : expr) : res e
 (* ------------------------------------------------------------------ *)
 Definition coulomb (p r q s : index) : tens := Tens KSym "v" 1 [p; r] [q; s].
 (* alternatives of one factor: list of (coefficient, factors) *)
-Definition expand_eri_fac (sign_fx : bool) (f : factor) : res (list (Q * list factor)) :=
+Definition expand_eri_fac (f : factor) : res (list (Q * list factor)) :=
   match fst f with
   | ATens t =>
     if String.eqb (tname t) "V" then
@@ -343,7 +334,7 @@ Fixpoint expand_eri_facs (fs : list factor) : res (list (Q * list factor)) :=
   match fs with
   | [] => Ok [(1%Q, [])]
   | f :: r =>
-    rbind (expand_eri_fac true f) (fun alts => rbind (expand_eri_facs r) (fun rest =>
+    rbind (expand_eri_fac f) (fun alts => rbind (expand_eri_facs r) (fun rest =>
       Ok (map (fun ab => (Qmult (fst (fst ab)) (fst (snd ab)), snd (fst ab) ++ snd (snd ab)))
               (list_prod alts rest))))
   end.
@@ -360,35 +351,28 @@ Fixpoint expand_eri_expr (e : expr) : res expr :=
 (* ------------------------------------------------------------------ *)
 Definition to_alpha (x : index) : index :=
   match ispin x with Beta => spin_idx Alpha x | _ => x end.
-(* patch 4: term.sympy.subs(order_substitutions(sub)) substitutes one index after the
-   other; a KroneckerDelta of two beta indices passes through delta(alpha, beta),
-   which adcgen evaluates to 0 - the whole term is lost.  None = the term became 0 *)
-Definition has_beta_delta (t : term) : bool :=
-  existsb (fun f => match fst f with
-                    | ADelta i j => spin_eqb (ispin i) Beta || spin_eqb (ispin j) Beta
-                    | _ => false end) (tfacs t).
-Definition restrict_term (fx : bool) (t : term) : res (option term) :=
+(* term.sympy.xreplace(sub): simultaneous renaming of the beta indices *)
+Definition restrict_term (t : term) : res term :=
   let idx := inodup (term_idx t) in
   let beta := filter (fun x => spin_eqb (ispin x) Beta) idx in
   if existsb (fun x => imem (spin_idx Alpha x) idx) beta then Err 10
-  else if negb fx && has_beta_delta t then Ok None
-  else Ok (Some (ren_term to_alpha t)).
-Fixpoint restrict_expr (fx : bool) (e : expr) : res expr :=
+  else Ok (ren_term to_alpha t).
+Fixpoint restrict_expr (e : expr) : res expr :=
   match e with
   | [] => Ok []
-  | t :: r => rbind (restrict_term fx t) (fun t' => rbind (restrict_expr fx r) (fun l =>
-                Ok (match t' with Some t' => t' :: l | None => l end)))
+  | t :: r => rbind (restrict_term t) (fun t' => rbind (restrict_expr r) (fun l => Ok (t' :: l)))
   end.
 
-Definition transform (fx : bool) (it : itable) (tm : tmap) (restricted expand : bool) (e : expr) : res expr :=
-  rbind (integrate_expr fx it tm e) (fun e1 =>
+Definition transform (it : itable) (tm : tmap) (restricted expand : bool) (e : expr) : res expr :=
+  rbind (integrate_expr it tm e) (fun e1 =>
   rbind (if expand then expand_eri_expr e1 else Ok e1) (fun e2 =>
-  if restricted then restrict_expr fx e2 else Ok e2)).
+  if restricted then restrict_expr e2 else Ok e2)).
 
 (* ------------------------------------------------------------------ *)
 (* allowed_spin_blocks(expr, target) and _has_valid_combination         *)
 (* ------------------------------------------------------------------ *)
-(* idx_map = {} ; "if idx in idx_map and idx_map[idx] != spin: raise" *)
+(* idx_map = {} ; "if idx in idx_map and idx_map[idx] != spin: idx_map = None; break"
+   (Err 1 = the block is skipped by obj_idx_maps) *)
 Fixpoint blk_map (zp : list (sp * index)) (acc : tmap) : res tmap :=
   match zp with
   | [] => Ok acc
@@ -401,7 +385,8 @@ Fixpoint blk_map (zp : list (sp * index)) (acc : tmap) : res tmap :=
 Fixpoint obj_idx_maps (tb : list block) (ix : list index) : res (list tmap) :=
   match tb with
   | [] => Ok []
-  | bl :: tb' => rbind (blk_map (combine bl ix) []) (fun m => rbind (obj_idx_maps tb' ix) (fun l => Ok (m :: l)))
+  | bl :: tb' => rbind (obj_idx_maps tb' ix) (fun l =>
+                   Ok (match blk_map (combine bl ix) [] with Ok m => m :: l | Err _ => l end))
   end.
 Definition n_target (tgt ix : list index) : nat := List.length (filter (fun x => imem x tgt) ix).
 Fixpoint term_idx_maps (tgt : list index) (objs : list sobj) : res (list (list tmap * nat)) :=
